@@ -657,6 +657,7 @@ def run_spec(spec: dict, seed: int, workdir: str, timeout: float = 60.0, shuffle
         from sfv.rt import wfsteps
         wfsteps.JOB_RNG = random.Random(seed * 7919 + 13)
         wfsteps.JOB_JITTER = float(os.environ.get("SFV_JOB_JITTER", "0.03")) if shuffle else 0.0
+        wfsteps.JOB_MODE = "reverse" if (shuffle and seed % 2 == 0) else "random"   # even schedule seeds: reverse completion order
         context = make_context(workdir)
         try:
             workflow, ports, node_steps = await build(context, spec, workdir)
